@@ -3,6 +3,7 @@ CHECK = {
         suite("sweep", "c15", 2500, 120000, stdin=True, args=["-suite", "sweep"]),
         suite("file", "c15", 400, 12000, stdin=True, args=["-suite", "file"]),
         suite("env", "c15", 1500, 60000, stdin=True, args=["-suite", "env"]),
+        suite("src", "c15", 600, 8000, stdin=True, args=["-suite", "src"]),
     ],
     "gen": [{"pkg": "extract_c15", "out": "lean/ClusterVerif/Gen/C15.lean"}],
     "lean_sources": ["ClusterVerif/Model/C15.lean", "ClusterVerif/Spec/C15.lean", "ClusterVerif/Gen/C15.lean"],
@@ -13,10 +14,15 @@ CHECK = {
             "setting with relative/absolute/dotted values under an absolute and a relative base directory with a generated key pair on disk; file: "
             "full 14-section config.Manager file + section/group/file shape variants + the same path cases through a file written to and loaded "
             "from a directory other than the cwd; env: CLUSTER_<SECTION>_<FIELD> over the default and over a loaded non-default "
-            "value), then n seeded random cases (random field, random value of its type, 1/12 byte-mangled JSON); non-trivial = the loader "
+            "value), src: one config.Manager against an in-process HTTP server, every single operation "
+            "(plain / invalid / garbage / missing file, {source:url} via LoadJSON, LoadJSONFromFile and LoadJSONFromHTTPSource over 13 remote "
+            "behaviours: valid, invalid, garbage, empty, own source, own source down, self, 404, 500, redirect, down; Default), every operation "
+            "followed by 8 second operations (thorough: all pairs), some triples, then save and reload by a fresh Manager), "
+            "then n seeded random cases (random field, random value of its type, 1/12 byte-mangled JSON); non-trivial = the loader "
             "accepted or refused a set value (unset/null accepted cases are trivial); distinct by case line",
     "trusted_base": ["go/ast pattern matcher harness/common/c15_schema.go (fail-closed: unmatched references become kind custom)",
                      "reflection on the exported Config struct field named by the translator for eff/eff2",
+                     "in-process net/http/httptest server and a closed loopback port standing for remote sources",
                      "time.ParseDuration(d.String()) = d and d.String() != \"\" (Go time package)",
                      "encoding/json: an absent key and an omitted zero value decode to the zero value",
                      "value classification of the generator (vc=zero|wf|mal|unset) and the frozen secret-name list of the Spec"],
@@ -35,10 +41,15 @@ META = {
             "statement (theorem C15_full_fails); C15_partial holds outside an explicit, proved-exact exception list (findings K11, K12). The real "
             "LoadJSON/ToJSON/Validate/ApplyEnvVars/ToDisplayJSON and config.Manager are then swept per field and per value, alone, on a dirty "
             "object, inside a full file and through environment variables; the Lean property checker runs on every real observation and the "
-            "kind model predicts accept/refuse and the saved value for every lossless row.",
+            "kind model predicts accept/refuse and the saved value for every lossless row. config.Manager's remote source is modelled "
+            "as a state machine (Source, sections) for any URL type and web: source_roundtrip / http_roundtrip (accepted sourced load on any prior "
+            "state saves exactly {source:url} and reloads to the same configuration), plain_roundtrip, accepted_iff, nested/failed fetch refused, "
+            "source_never_cleared, and reuse_full_fails (a stale Source on a re-used Manager drops a later plain configuration: finding K34); "
+            "the real Manager is driven through the same operation sequences and must agree with the model observation for observation.",
     "note": "Trusted: Lean kernel (+propext, Classical.choice, Quot.sound), the go/ast translator's pattern matcher (fail-closed), the harness "
             "(reflection on Config fields, value classification), Go's time and encoding/json. Known findings on the unchanged tree: K11 "
-            "(booleans cannot be set to false under SetIfNotDefault/mergo), K12 (explicit empty string/list replaced by the default). Found by this "
+            "(booleans cannot be set to false under SetIfNotDefault/mergo), K12 (explicit empty string/list replaced by the default), K34 (Manager.Source is never cleared: a re-used Manager saves a stale source "
+            "instead of a later plain configuration). Found by this "
             "check and since repaired in /repo: crdt dropped the ParseDurations error (639679f), Manager.LoadJSON panicked on a null section (c0fa836).",
     "technique": "Lean 4 theorems per copy-kind for all values + go/ast translator with decide over the regenerated schema + differential sweeps of the real loaders",
 }
